@@ -20,6 +20,7 @@ from autobean_refactor.models.internal import properties as _props
 from autobean_refactor.models.internal import fields as _fields
 from common import enc_text
 import edits
+import intro
 
 STREAM = 'repeated-lockstep'
 REP_KINDS = {
@@ -114,6 +115,24 @@ def _find_descriptor(cls, name):
             return k.__dict__[name]
     return None
 
+
+
+def _canonical_pivot(pm, fld, left):
+    """The insertion point the schema prescribes (Model/Schema.lean `canonicalChain`), computed from the CURRENT
+    fields independently of the library's own `_x_pivot` property: the nearest preceding (left) / following
+    (right) field that is present - required and repeated fields always are - gives its last / first token.
+    Presence is `is not None` (a token object is present whatever its truth value)."""
+    fields = intro.class_fields(type(pm))
+    names = [f[0] for f in fields]
+    k = next(i for i, f in enumerate(fields) if f[3] is fld)
+    order = range(k - 1, -1, -1) if left else range(k + 1, len(fields))
+    for i in order:
+        name, kind, _, _ = fields[i]
+        v = pm.__dict__.get(name)
+        if v is None:
+            continue
+        return v.last_token if left else v.first_token
+    raise Skip('no-pivot')
 
 class Observer:
     def __init__(self, stream=STREAM):
@@ -210,11 +229,11 @@ class Observer:
             if cur is None and value is None:
                 raise Skip('none-to-none')
             if cur is None:
-                pivot = desc._pivot_property.__get__(pm)
+                pivot = _canonical_pivot(pm, fld, left)
                 what = 'create_left' if left else 'create_right'
                 line = f'{what} {s_store} {ids[id(pivot)]} {_enc_templates(fld.separators)} {_enc_values([value], ids, store)}'
             elif value is None:
-                pivot = desc._pivot_property.__get__(pm)
+                pivot = _canonical_pivot(pm, fld, left)
                 if left:
                     what = 'remove_left'
                     line = f'{what} {s_store} {ids[id(pivot)]} {ids[id(cur.last_token)]}'
